@@ -114,10 +114,46 @@ type EpochD struct {
 	VRF     *VrfD   `json:"vrf,omitempty"` // beacon backend VRF
 	Base    uint64  `json:"base"`          // base epoch
 	Changed bool    `json:"changed"`       // the epoch changed in this block
-	Slashed bool    `json:"slashed,omitempty"`
+	Slashed bool    `json:"slashed,omitempty"` // a bare TakeEscrowEvent emitted before the scheduler runs
+	Slashes []SlashD `json:"slashes,omitempty"` // real SlashEscrow calls (+ node freeze) before the scheduler runs
 	Ents    []EntD  `json:"ents"` // same length/order as Case.EntKeys
 	Nodes   []NodeD `json:"nodes"`
 }
+type SlashD struct {
+	Ent    int    `json:"ent"`
+	Amount string `json:"amount"`
+	Freeze string `json:"freeze,omitempty"` // node key to freeze
+	Until  uint64 `json:"until,omitempty"`
+}
+
+// effective returns the epoch as the election sees it (post-slash escrows and
+// freezes) and whether any slash took something.
+func (e *EpochD) effective() (EpochD, bool) {
+	out := *e
+	out.Ents = append([]EntD{}, e.Ents...)
+	out.Nodes = append([]NodeD{}, e.Nodes...)
+	took := false
+	for _, s := range e.Slashes {
+		en := &out.Ents[s.Ent]
+		if !en.NoAccount {
+			esc, amt := bigOf(en.Escrow), bigOf(s.Amount)
+			if amt.Cmp(esc) > 0 {
+				amt = esc
+			}
+			if amt.Sign() > 0 {
+				took = true
+			}
+			en.Escrow = new(big.Int).Sub(esc, amt).String()
+		}
+		for k := range out.Nodes {
+			if s.Freeze != "" && out.Nodes[k].Key == s.Freeze {
+				out.Nodes[k].Freeze = s.Until
+			}
+		}
+	}
+	return out, took
+}
+
 type VrfD struct {
 	Can  bool `json:"can"`  // PrevState.CanElectCommittees
 	Weak bool `json:"weak"` // DebugAllowWeakAlpha
@@ -459,6 +495,20 @@ func (r *runner) epoch(e *EpochD) (obs Obs) {
 		if e.Slashed {
 			ctx.EmitEvent(abciAPI.NewEventBuilder(stakingApp.AppName).TypedAttribute(&staking.TakeEscrowEvent{}))
 		}
+		// what staking's evidence handling does before the scheduler's BeginBlock:
+		// the real SlashEscrow (emits TakeEscrowEvent iff something was taken) and the node freeze
+		for _, sl := range e.Slashes {
+			amt := qOf(bigOf(sl.Amount))
+			_, serr := stakingState.NewMutableState(ctx.State()).SlashEscrow(ctx, entAddr(c.EntKeys[sl.Ent]), &amt)
+			must(serr)
+			if sl.Freeze != "" {
+				rs := registryState.NewMutableState(ctx.State())
+				stt, serr := rs.NodeStatus(ctx, pk(sl.Freeze))
+				must(serr)
+				stt.FreezeEndTime = beacon.EpochTime(sl.Until)
+				must(rs.SetNodeStatus(ctx, pk(sl.Freeze), stt))
+			}
+		}
 		// the real BeginBlock: shouldElect + elect (+ reward distribution over an empty schedule)
 		err := r.app.BeginBlock(ctx)
 		obs.Err, obs.ErrText = classify(err)
@@ -663,7 +713,8 @@ func (v *view) suitable(n *NodeD, rti int) bool {
 // oracle returns "" or a description of the first C14 predicate that fails on
 // the implementation's output for epoch i.
 func oracle(c *Case, i int, o *Obs, before []UpdO) string {
-	e := &c.Epochs[i]
+	eff, took := c.Epochs[i].effective()
+	e := &eff
 	v := &view{c: c, e: e, byID: map[string]*NodeD{}}
 	for k := range e.Nodes {
 		v.byID[e.Nodes[k].Key] = &e.Nodes[k]
@@ -671,7 +722,7 @@ func oracle(c *Case, i int, o *Obs, before []UpdO) string {
 	if o.Err == 9 {
 		return "election failed with an unexpected error: " + o.ErrText
 	}
-	wantElect := e.Epoch != e.Base && (e.Changed || e.Slashed)
+	wantElect := e.Epoch != e.Base && (e.Changed || e.Slashed || took)
 	if o.Skip == wantElect {
 		return fmt.Sprintf("election trigger: skipped=%v although epoch=%d base=%d changed=%v slashed=%v", o.Skip, e.Epoch, e.Base, e.Changed, e.Slashed)
 	}
@@ -1018,10 +1069,18 @@ func inputTerm(c *Case, i int, before []UpdO) string {
 		vrf = fmt.Sprintf("(Some (mkVrf %s %s %s %s))", coqout.Bool(e.VRF.Can), coqout.Bool(e.VRF.Weak),
 			betas(func(pi *signature.Proof) [32]byte { return schedulerApp.VerifValidatorBeta(cc, ep, pi) }), coqout.List(per))
 	}
-	return fmt.Sprintf("mkIn (mkParams %d %d %d %s %s) %s %d %s %s %s %s %s %s %s %s %d %s %s",
+	var sls []string
+	for _, sl := range e.Slashes {
+		fr := "None"
+		if sl.Freeze != "" {
+			fr = fmt.Sprintf("(Some (%s, %d))", num(sl.Freeze), sl.Until)
+		}
+		sls = append(sls, fmt.Sprintf("(%s, %s, %s)", num(entAddrHex(c.EntKeys[sl.Ent])), bigOf(sl.Amount).String(), fr))
+	}
+	return fmt.Sprintf("mkIn (mkParams %d %d %d %s %s) %s %d %s %s %s %s %s %s %s %s %d %s %s %s",
 		p.Min, p.Max, p.Per, coqout.Bool(p.Bypass), coqout.Bool(p.Sqrt),
 		coqout.List(ents), e.Epoch, coqout.List(nodes), coqout.List(rts), te, tn, coqout.List(permc), coqout.List(cur), coqout.Bool(e.FV261),
-		vrf, e.Base, coqout.Bool(e.Changed), coqout.Bool(e.Slashed))
+		vrf, e.Base, coqout.Bool(e.Changed), coqout.Bool(e.Slashed), coqout.List(sls))
 }
 
 func outputTerm(o *Obs) string {
@@ -1267,6 +1326,7 @@ func genCase(r *prng.R) Case {
 	nEp := []int{1, 2, 3, 3, 4, 5, 6, 8, 10}[r.Intn(9)]
 	for k := 1; k < nEp; k++ {
 		prev := c.Epochs[k-1]
+		slashNow := false
 		nx := EpochD{Epoch: prev.Epoch + 1, Entropy: hex.EncodeToString(r.Bytes(32)), Params: prev.Params, FV261: prev.FV261, Base: prev.Base, Changed: true}
 		if prev.VRF != nil {
 			nx.VRF = &VrfD{Can: prev.VRF.Can, Weak: prev.VRF.Weak}
@@ -1283,7 +1343,8 @@ func genCase(r *prng.R) Case {
 		if r.Chance(22) {
 			// a block inside the epoch: re-election only if stake was slashed in it
 			nx.Epoch, nx.Entropy, nx.Changed = prev.Epoch, prev.Entropy, false
-			nx.Slashed = r.Chance(55)
+			nx.Slashed = r.Chance(20)
+			slashNow = r.Chance(60)
 		}
 		for i, e := range prev.Ents {
 			ne := e
@@ -1323,6 +1384,37 @@ func genCase(r *prng.R) Case {
 		}
 		if r.Chance(50) && len(nx.Nodes) < 14 {
 			nx.Nodes = append(nx.Nodes, genNode(r, &c, r.Intn(nEnt), nx.Epoch))
+		}
+		if slashNow {
+			k := r.Range(1, 2)
+			for j := 0; j < k; j++ {
+				ei := r.Intn(nEnt)
+				en := nx.Ents[ei]
+				esc, tot := bigOf(en.Escrow), claimTotal(&c, en)
+				amt := big.NewInt(int64(r.Range(0, 400)))
+				switch r.Intn(5) {
+				case 0: // leaves the entity exactly at its claims
+					if esc.Cmp(tot) > 0 {
+						amt = new(big.Int).Sub(esc, tot)
+					}
+				case 1: // one unit below its claims
+					if esc.Cmp(tot) >= 0 {
+						amt = new(big.Int).Add(new(big.Int).Sub(esc, tot), big.NewInt(1))
+					}
+				case 2: // more than there is
+					amt = new(big.Int).Add(esc, big.NewInt(5))
+				}
+				sl := SlashD{Ent: ei, Amount: amt.String()}
+				if r.Chance(55) {
+					for _, nd := range nx.Nodes {
+						if nd.Ent == ei && nd.Roles&8 != 0 {
+							sl.Freeze, sl.Until = nd.Key, nx.Epoch+uint64(r.Range(1, 3))
+							break
+						}
+					}
+				}
+				nx.Slashes = append(nx.Slashes, sl)
+			}
 		}
 		c.Epochs = append(c.Epochs, nx)
 	}
@@ -1458,10 +1550,21 @@ func main() {
 	n := flag.Int("cases", 100, "number of generated cases")
 	out := flag.String("out", "", "output directory")
 	replay := flag.String("replay", "", "replay a case description (JSON file)")
+	mode := flag.String("mode", "sched", "sched | beacon")
 	flag.Parse()
 	if *out == "" {
 		fmt.Fprintln(os.Stderr, "need -out")
 		os.Exit(2)
+	}
+	if *replay != "" {
+		// the driver replays with "-replay FILE" only: recognise a beacon case by its shape
+		if b, err := os.ReadFile(*replay); err == nil && strings.Contains(string(b), "\"future_height\"") {
+			*mode = "beacon"
+		}
+	}
+	if *mode == "beacon" {
+		beaconMain(*seed, *out, *replay, *n)
+		return
 	}
 	hdr := "From Verif Require Import Lib.Base Sched.Elect Sched.ElectSpec.\n"
 	// per case: the model's functional result must equal the implementation's output, and
@@ -1572,8 +1675,14 @@ func main() {
 					sum.Count("trigger", "base-epoch")
 				case e.Changed:
 					sum.Count("trigger", "epoch-changed")
+				case len(e.Slashes) > 0:
+					if _, took := e.effective(); took {
+						sum.Count("trigger", "real-slash-in-epoch")
+					} else {
+						sum.Count("trigger", "slash-that-took-nothing")
+					}
 				case e.Slashed:
-					sum.Count("trigger", "slashed-in-epoch")
+					sum.Count("trigger", "slash-event-in-epoch")
 				default:
 					sum.Count("trigger", "none")
 				}
